@@ -82,8 +82,11 @@ class Gen:
     def random_eng(self):
         rng = self.rng
         x = rng.random()
-        if x < 0.30:
+        if x < 0.27:
             return self.write()
+        if x < 0.30:
+            w = self.write()
+            return E("writefail", id=w["id"])
         if x < 0.38:
             return E("setmode", mode=rng.choice(["RW", "RW", "WO", "XX"]))
         if x < 0.46:
@@ -171,6 +174,19 @@ def closefail_cases():
     return out
 
 
+def writefail_cases():
+    """a write whose data write fails in the file system (every mode, clean and dirty, before and after good
+    writes, followed by reopen / crash): refused, nothing applied, counter (memory and disk) unchanged"""
+    out = []
+    for mode in ("RW", "WO", None):
+        pre = [E("create"), E("open")] + ([E("setmode", mode=mode)] if mode else [])
+        for mid in ([], [E("write", id=1), E("write", id=2)], [E("write", id=1), E("snapshot"), E("write", id=3)]):
+            for tail in ([E("write", id=5)], [E("close"), E("open"), E("setmode", mode="RW"), E("write", id=5)],
+                         [E("crash"), E("open"), E("setmode", mode="RW"), E("write", id=5)], [E("writefail", id=6), E("reload"), E("write", id=7)]):
+                out.append(pre + mid + [E("writefail", id=4)] + tail)
+    return out
+
+
 def counter_cases():
     """C10: promotions set the counter to the source's value, which may be lower or higher than the own one;
     writes before and after, with and without reopen in between"""
@@ -217,6 +233,8 @@ def op_term(o):
         op = o["op"]
         if op == "write":
             return "Eng (OWrite %d%%N)" % o["id"]
+        if op == "writefail":
+            return "Eng (OWriteFail %d%%N)" % o["id"]
         if op == "setmode":
             return "Eng (OSetMode %s)" % MODE.get(o["mode"], "INIT")
         if op == "setrev":
